@@ -59,6 +59,7 @@ class Engine:
         self.current_target = None
         self.str_to_int_hook = None
         self.after_call = {}  # (caller qualname, callee name) -> ghost statement fn(c, frame, result)
+        self.cut_calls = {}  # (caller qualname, callee qualname) -> extra requires; the path ends after the call's requires
 
     # ------------------------------------------------------------------ registry
     def add(self, contract):
@@ -114,6 +115,14 @@ class Engine:
         if isinstance(fn, Closure):
             key = f"{fn.frame.module.__name__}:{fn.qual}"
             ct = self.contracts.get(key)
+            cut = self.cut_calls.get((c.frames[-1].qual if c.frames else None, fn.qual))
+            if ct is not None and cut is not None:
+                bound = I.bind_args(c, fn.node, args, dict(kwargs), lambda d: self._default(c, d, fn.frame), fn.qual)
+                bound["$closure"] = fn.frame
+                c.prove(f"call:{fn.qual.split('.')[-1]}.requires", c.proving(ct.requires, c, bound), node)
+                c.prove(f"call:{fn.qual.split('.')[-1]}.entry-state", c.proving(cut, c, bound), node)
+                self.cut_reached = getattr(self, "cut_reached", 0) + 1
+                raise PathEnd()
             if ct is not None and key != self.current_target:
                 bound = I.bind_args(c, fn.node, args, dict(kwargs), lambda d: self._default(c, d, fn.frame), fn.qual)
                 bound["$closure"] = fn.frame
